@@ -251,8 +251,8 @@ def gen_witness(repo, dst, shape_list):
     for k, sh in enumerate(shape_list):
         for macro, tymap, pre in (("AgentSet", {"A": "A", "B": "B", "N": "Nest"}, "S"), ("MarketAgentSet", {"A": "MA", "B": "MB", "N": "MNest"}, "T")):
             name = "%s%d" % (pre, k)
-            fields = ["f%d" % i for i in range(len(sh))]
-            # declaration order deliberately not alphabetical / not by type
+            # declaration order deliberately differs from the alphabetical order of the names
+            fields = [FIELD_NAMES[i] for i in range(len(sh))]
             decl = ", ".join("pub %s: %s" % (fn_, tymap[t]) for fn_, t in zip(fields, sh))
             src.append("#[derive(%s)] pub struct %s { %s }" % (macro, name, decl))
             table[name] = (macro, list(sh), fields)
@@ -336,6 +336,7 @@ def witness_rules(ctx, m, max_n, extra):
     ctx.extra["exhaustive_up_to_fields"] = max_n
 
 
+FIELD_NAMES = ["m3", "a7", "z1", "k5", "b9", "y2", "c8", "x4"]
 LONG = [tuple("ABNABNAB"), tuple("NNBBAABA"), tuple("AAAAAAAA"), tuple("BANBANB"), tuple("ABABA"), tuple("NABNA"), tuple("BBBBBN")]
 
 
